@@ -17,7 +17,7 @@ META = dict(
         quick="hosts: all graphs (connected or not) on <=4 nodes; patterns: all graphs on <=3 nodes (4-node hosts with >=4 bonds only against patterns without bonds or with <=2 nodes); element in {C,N}, "
               "hcount in {0,1}, bond order in {1,2}, charge in {0,1} on the 3-node hosts; strategies all/comp/bt, "
               "strict_cc_count on/off; two different hosts on the same node ids searched one after the other; max_results in {1,2}, threshold in {0,1,2}, pre_filter on/off — all on the "
-              "same symbolic pair",
+              "same symbolic pair Additionally a few two-/three-atom shards with charges in {-2,-1}: different labels whose hash() values coincide in CPython.",
         thorough="hosts up to 5 nodes (<=5 edges), patterns up to 3 nodes, charge symbolic everywhere, hcount in {0,1,2}",
     ),
     outside=["hosts > 5 nodes, patterns > 3 nodes", "Strategy.PARTIAL (raises NotImplementedError)",
@@ -205,6 +205,9 @@ def shards(tier, seed):
     for n, ea, eb in HISTORY_PAIRS:
         for pn, pe in ((2, [[1, 2]]), (2, []), (3, [[1, 2]])):
             sh.append(dict(h="history", params=dict(n=n, edges_a=ea, edges_b=eb, pn=pn, pedges=pe)))
+    # charges -1 / -2: different labels whose hash() values coincide in CPython
+    for hn, he, pn, pe in ((2, [[1, 2]], 1, []), (2, [[1, 2]], 2, [[1, 2]]), (3, [[1, 2], [2, 3]], 2, [[1, 2]]), (2, [], 2, [])):
+        sh.append(dict(h="search", params=dict(hn=hn, hedges=he, pn=pn, pedges=pe, charges=[-2, -1], hmax=0, limits=False)))
     if tier == "quick":
         hosts = [(n, es) for n in (2, 3, 4) for es in all_shapes(n)]
         pats = [(n, es) for n in (1, 2, 3) for es in all_shapes(n)]
